@@ -118,6 +118,18 @@ func main() {
 			c.Count("allocator-default-start")
 		} else {
 			c.Count("allocator-set-counter")
+			// A counter value with the role's parity that is reached from the
+			// role's start value without wrapping is a reachable state, so the
+			// property's own text applies to what is allocated from it.
+			roleStart := uint64(2)
+			if r.Dialer {
+				roleStart = 1
+			}
+			n := uint64(len(ids))
+			if r.Start >= roleStart && r.Start%2 == roleStart%2 && r.Start+2*n > r.Start && r.Start+2*n >= 2*n {
+				monitor(r, ids, r.Dialer)
+				c.Count("allocator-set-counter-reachable")
+			}
 		}
 	}
 	runPair := func(g, m int) {
@@ -164,6 +176,15 @@ func main() {
 			runAllocator(r)
 		}
 	} else {
+		// First-allocation races: many fresh allocators / connection pairs, every
+		// goroutine released at once, one or two allocations each.
+		for i := 0; i < c.N(300, 3000); i++ {
+			if i%3 == 0 {
+				runPair(8, 1+i%2)
+			} else {
+				runAllocator(replay{Kind: "allocator", Start: uint64(2 - i%2), Dialer: i%2 == 1, Goroutines: 8, PerG: 1 + i%2})
+			}
+		}
 		n := c.N(60, 600)
 		for i := 0; i < n; i++ {
 			g := c.Rand.Pick(1, 2, 4, 8, 16)
@@ -181,7 +202,15 @@ func main() {
 			default:
 				// boundary counters through the verif-only setter
 				d := c.Rand.Chance(1, 2)
-				base := c.Rand.PickU64(0, 1, 2, 1<<32-1, 1<<63-2, 1<<63, ^uint64(0)-5, ^uint64(0)-1, ^uint64(0), ^uint64(0)-uint64(2*g*m))
+				base := c.Rand.PickU64(0, 1, 2, 1<<31-6, 1<<32-7, 1<<32-1, 1<<32+8, 1<<63-2, 1<<63, ^uint64(0)-5, ^uint64(0)-1, ^uint64(0), ^uint64(0)-uint64(2*g*m), 1<<32-uint64(g*m))
+				if c.Rand.Chance(3, 4) && base > 4 {
+					// give the counter the role's parity (a reachable state)
+					if d {
+						base |= 1
+					} else {
+						base &^= 1
+					}
+				}
 				runAllocator(replay{Kind: "allocator", Start: base, SetCounter: true, Dialer: d, Goroutines: g, PerG: m})
 			}
 		}
